@@ -201,3 +201,57 @@ Definition C03_full (M : edif_pipeline) : Prop :=
   forall n : nv M, expressible M n ->
     exists d n', read (tokenize (print (emit M (edifify M n)))) = Some d /\
                  elab M d = Some n' /\ same_struct M n n'.
+
+(* ------------------------------------------------------------------------------------------ *)
+(* THE WHOLE-FILE WRITER (Fmt/EdifEmit.emit_file : timestamp -> program metadata -> nvfile -> document,
+   construct by construct after ComposeEdif; tied to the real composer on every run by
+   harness/edif_emit.py: the file the composer wrote == emit_file of the value of the netlist)
+   composed with the whole-file READER (Fmt/EdifFile.elab_file, Props/C05.v). *)
+From Coq Require Import String.
+From SV Require Import Fmt.EdifFile Fmt.EdifEmit Proofs.EdifEmitProofs.
+
+(* the VERIFIED CHECKER, evaluated by the extracted model on every generated and bundled netlist of
+   every run: when it says yes, the document written for the value n is its own text and the
+   reader gives back [norm_file n] - the same libraries, cells, ports (direction, width, array-ness),
+   instances (references, properties), cables with the same pins wire by wire, the same top
+   instance, all names and identifiers; only the view is now called "netlist" and every bus carries
+   the array flag (Fmt/EdifNets.norm_entry) *)
+Theorem C03_emit_roundtrip_checked : forall ts prog n, rt_check ts prog n = true ->
+  exists d, emit_file ts prog n = EmOk d /\ sexp_ok d = true /\ elab_file d = Ok (norm_file n).
+Proof. exact rt_check_sound. Qed.
+Print Assumptions C03_emit_roundtrip_checked.
+
+(* ... from CHARACTERS: the text printed for the document, tokenized by the tokenizer model and read *)
+Theorem C03_emit_roundtrip_text_checked : forall ts prog n, rt_check ts prog n = true ->
+  exists t, emit_text ts prog n = EmOk t /\ elab_text t = Ok (norm_file n).
+Proof. exact rt_check_text. Qed.
+Print Assumptions C03_emit_roundtrip_text_checked.
+
+(* the equality the checker computes is Leibniz equality of netlist values *)
+Theorem C03_value_equality_decided : forall a b : nvfile, file_eqb a b = true -> a = b.
+Proof. exact file_eqb_eq. Qed.
+Print Assumptions C03_value_equality_decided.
+
+(* the timestamp is a parameter of the document only: it never decides whether a file is written *)
+Theorem C03_emit_timestamp_irrelevant : forall ts ts' prog n d, emit_file ts prog n = EmOk d ->
+  Forall (fun a => atom_ok a = true) ts' -> List.length ts' = List.length ts ->
+  exists d', emit_file ts' prog n = EmOk d'.
+Proof. exact emit_timestamp_only. Qed.
+Print Assumptions C03_emit_timestamp_irrelevant.
+
+(* a two-library netlist with renamed elements, an array port, properties of the three value
+   forms, a bus with lower index 2: it is writable, passes the checker, and this is its text *)
+Example C03_emit_roundtrip_example : ltac:(let t := type of emit_roundtrip_example in exact t).
+Proof. exact emit_roundtrip_example. Qed.
+(* outside [writable]: the "&_" bus of C03_refuted_amp_bus as a whole file; the checker says no *)
+Example C03_emit_roundtrip_amp_bus_fails : ltac:(let t := type of emit_roundtrip_amp_bus_fails in exact t).
+Proof. exact emit_roundtrip_amp_bus_fails. Qed.
+
+(* The general statement over the decidable class [writable] (Fmt/EdifEmit.v: what the reader
+   checks on the written file, minus the open findings: "&_" buses, bit-like scalar names, names
+   with * ?, non-ASCII text, line breaks in strings). NOT PROVED. Every run evaluates, on every
+   generated and bundled netlist, writable n -> rt_check n (model) and writable n -> the
+   implementation reads its own file back to the same netlist; a counterexample is a VIOLATION. *)
+Definition C03_emit_roundtrip_full : Prop := forall ts prog n,
+  writable n = true -> params_w ts prog = true ->
+  exists t, emit_text ts prog n = EmOk t /\ elab_text t = Ok (norm_file n).
